@@ -9,7 +9,8 @@ for s in "$@"; do
   first=$(grep -m3 '^VIOLATION' $d/check_output.txt | sed 's/.*obligation=//' | tr '\n' ';')
   python3 - <<PY
 import json
-p="$d/meta.json"; m=json.load(open(p)); m["check_exit_code"]=$rc; m["violations_reported"]=$nviol; m["first_violations"]="$first"; json.dump(m,open(p,"w"),indent=1)
+import os
+p="$d/meta.json"; m=json.load(open(p)) if os.path.exists(p) else {"property":"$PROP","mutant":"$s".split("-")[1],"note":"demo verified when stored; meta created by reseed"}; m["check_exit_code"]=$rc; m["violations_reported"]=$nviol; m["first_violations"]="$first"; json.dump(m,open(p,"w"),indent=1)
 PY
   echo "$s rc=$rc violations=$nviol $first"
 done
